@@ -107,6 +107,19 @@ V3_Dirs ==
     <<DirX("deprecated", <<>>)>>,
     <<DirX("deprecated", <<Arg("reason", I1)>>)>> }
 
+\* V3s: a directive on an EARLIER selection, a (possibly wrong) argument on a later one: the type
+\* tracker must not carry the directive over
+V3s_Leafs(t) ==
+  IF t # "Q" THEN { Sel("", "x") } ELSE
+  { SelA("", "a", <<>>),
+    SelA("", "f", <<Arg("x", I1)>>),
+    SelA("", "f", <<Arg("y", StrV("s"))>>),
+    SelA("", "f", <<Arg("in", ObjL(<<OF("r", StrV("s"))>>))>>),
+    SelA("", "f", <<Arg("en", EnumV("BLUE"))>>),
+    SelA("", "f", <<Arg("if", T)>>),
+    SelA("", "gni", <<Arg("ni", StrV("s"))>>) }
+V3s_Dirs == { <<>>, <<DirX("skip", <<Arg("if", T)>>)>>, <<DirX("include", <<Arg("if", BoolV(FALSE))>>)>> }
+
 \* V2: variables ---------------------------------------------------------------
 Va == VarRef("a")
 Vb == VarRef("b")
